@@ -1485,7 +1485,6 @@ def norm_shadow(tr):
 # Every rule excludes a family of access forms on which the pinned implementation does not behave like the
 # location+path store (genuine defects, crashes, or forms it rejects). (finding id, regex on the form signature
 # "<ctx M|F|S><place G|L>|<role>|<expr>|<style>"). known_findings/C07.json holds one minimal replay per id.
-P_TYPED = r"(P|PS\[\]|par<[a-z]+ P>|par<arr PS>\[\]|\*\([^)]*=>(P|PS\[\])\))"
 AVOID = [
     # --- struct arrays
     ("C07-structarray-elem-whole", r"\|(decl|cp[ds]|retd?|addr|argptr)\|(PS|ES)\[\]|\|recv\|PS\[\]"),
@@ -1496,16 +1495,16 @@ AVOID = [
     ("C07-arrow-array-member-rejected", r"\*\([^)]*\)\.arr\[\]"),
     ("C07-arrow-nested-write-rejected", r"\|(w|retdi)\|\*\([^)]*\)\.inner\."),
     ("C07-deref-whole-struct", r"\|(decl|cp[ds]|argval|retd?)\|\*\("),
-    # --- whole-struct copies
-    ("C07-struct-copy-loses-members", r"\|(decl|cp[ds]|retd?)\|" + P_TYPED + r"\|"),
+    # --- whole-struct copies (whole copies / declaration copies of P and `x.inner = y.inner`, `In c = x.inner` are in the main
+    #     stream since the repairs 1608427, f1b3774 and
+    #     6bf51ec; what is left of the nested-struct rule: results, arguments, receivers, pointers)
     ("C07-array-member-assign-noop", r"\|cp[ds]\|.*arr\|"),
-    ("C07-nested-struct-whole", r"\|(decl|cp[ds]|retd?|argval|recv|addr|argptr)\|.*\.inner\|"),
+    ("C07-nested-struct-whole", r"\|(retd?|argval|recv|addr|argptr)\|.*\.inner\|"),
     ("C07-callee-param-struct-copy", r"^[FSETU].\|(cp[ds]|retd)\|par<|\|ret\|par<(ref|arr)"),
     ("C07-decl-copy-of-ref-param-zeroed", r"\|decl\|par<ref"),
     # --- references / by-value parameters / self
     ("C07-ref-array-member-write-lost", r"\|(w|retdi)\|par<ref P>\.arr\[\]"),
     ("C07-ref-nested-write-rejected", r"\|(w|retdi)\|par<ref P>\.inner\."),
-    ("C07-byval-nested-write-lost", r"\|(w|retdi)\|par<val P>\.inner"),
     ("C07-method-wipes-members", r"\|recv\|(P\||par<\w+ P>|\*\([^)]*=>P\))"),
     ("C07-method-on-ref-param-rejected", r"\|recv\|par<ref"),
     ("C07-self-by-value-arg-rejected", r"\|argval\|par<self"),
@@ -1525,7 +1524,6 @@ AVOID = [
     ("C07-ref-param-name-clash", r"\|par<ref [^|]*\|[^|/=]*(#(?![^|/]*=)[^|/]*?(?<=[gmc])(In|P|Q|ES|PS)\b|\^[^|/]*?(?<=[\^,])(In|P|Q|ES|PS)\b)"),
     ("C07-pointer-write-target-shadowed", r"\|(w|retdi?|cpd|recv)\|[^|]*\*\([^|]*\|[^|/]*\^[^|/]*?(?<=[\^,])(In|P|Q|ES|PS)\b"),
     ("C07-dynamic-scope-captures-global", r"\|[^|]*%[^|]*$"),
-    ("C07-byval-nested-member-read-captured", r"\|par<val P>(\.inner[^|]*)?\|[^|/]*#[^|/]*[gmc]PS?\b"),
     ("C07-ptr-param-receiver-name-clash",
      r"\|recv\|\*\(par<p(tr|val) \*(In|Q)>[^|]*\|[^|/]*#(?![^|/]*=)[^|/]*?(?<=[gmc])(In|ES|Q)\b"),
     ("C07-self-write-receiver-shadowed", r"\|(w|retdi?)\|par<self [^|]*\|[^|/]*\^[^|/]*?(?<=[\^,])(In|P|Q|ES|PS)\b|\|decl\|[^|]*\|[^|]*!"),
@@ -1819,13 +1817,16 @@ META = {
             "programs and run on main built from the current tree; the transcript must equal the extracted model's. A conflict stream "
             "(array parameters and self receivers by name / p-> / (*p). x three exits, callee also using the global name) makes "
             "main follow the modelled copy-back mechanism where it differs from aliasing. The generator stays inside the fragment "
-            "where main and the model agree; every excluded family of forms is a recorded known finding (53 entries) that is "
-            "replayed on every run.",
+            "where main and the model agree; every excluded family of forms is a recorded known finding (49 entries) that is "
+            "replayed on every run; 5 findings were repaired in the code (nested members of by-value struct parameters, x.inner = "
+            "y.inner, declaration copies and copies of copies of structs with nested / array members): their forms are in the "
+            "main stream and their replays are regression tests (fixed_replays).",
     "note": "PARTIAL: the implementation's double representation of struct values (member map + flattened 'a.b.c' variables, "
-            "managers/structs/*.cpp) is NOT modelled; the 37 avoidance rules cut away most whole-struct copies of structs with "
-            "nested/array members, struct-array elements as whole values, pointers to members, methods on such structs (all defects "
-            "of that mechanism) and the name-sensitive forms on which dynamic name lookup goes wrong (8 rules on name-coincidence flags "
-            "of the form signatures: argument naming an earlier parameter, T& parameter / by-value nested member / pointer-parameter "
+            "managers/structs/*.cpp) is NOT modelled; the 34 avoidance rules cut away nested-struct members as results / arguments / "
+            "receivers / pointer targets, array members as whole values, struct-array elements as whole values, pointers to members, "
+            "methods on structs with nested / array members (all defects "
+            "of that mechanism) and the name-sensitive forms on which dynamic name lookup goes wrong (7 rules on name-coincidence flags "
+            "of the form signatures: argument naming an earlier parameter, T& parameter / pointer-parameter "
             "receiver named like another live struct, global captured by a caller's local, pointer / self write whose target's name is "
             "shadowed). Trusted: Coq kernel (vm_compute for the three witnesses), no axioms (Print Assumptions: closed); "
             "extraction ExtrOcamlBasic+ExtrOcamlString; hand-written model tied by differential testing only; the Python printer of "
@@ -1851,8 +1852,10 @@ def gen_history(seed, k, n, tier, strings=None):
             continue
         for p in leaves(t):
             # struct arrays are always initialised member-wise first (known findings C07-uninit-structarray-*)
-            # (string members too: an unassigned string prints as the empty string, not as a number)
-            if t in ("PS", "ES", "Q") or rng.random() < 0.7:
+            # (string members too: an unassigned string prints as the empty string, not as a number);
+            # the first member of a and b too: a whole copy FROM a struct that was never accessed leaves the copy's array member
+            # without element storage (known finding C07-copy-of-untouched-struct-ref-array-read-crash)
+            if t in ("PS", "ES", "Q") or (t == "P" and p == (0,)) or rng.random() < 0.7:
                 a = ("v", loc)
                 for i in p:
                     a = ("f", a, i)
@@ -2154,7 +2157,7 @@ def run(rep):
             rep.violation("coqchk", {"output": summ[-3000:]}, "coqchk rejects the compiled C07 development", True)
     rep.assumptions += [
         "the double representation of struct values (member map + flattened variables) is not modelled; the main stream avoids "
-        "the forms on which it misbehaves (37 rules, props/c07.py AVOID), each documented by a replayed known finding",
+        "the forms on which it misbehaves (34 rules, props/c07.py AVOID), each documented by a replayed known finding",
         "the C++ behaves like the model on the fragment: differential testing on generated histories, not proof",
         "Python printer (history -> Cb text) and transcript parser are trusted; the Python shadow heap is cross-checked against the "
         "extracted Coq model on every case",
